@@ -53,6 +53,9 @@ def obligations(ctx, tier):
                 for R in PRIM_INTS:
                     byval = tr(A, OPS + Tr, [R], m)
                     out.append(core.f_row(K, PROP, byval, call(inh(A, m), P(0), amount_term(K, R, cls))))
+                    if R != "u32":
+                        from . import c05
+                        out += core.g_row(K, PROP, byval, c05.prim_amount_reps(A, R, m, cls, K.debug))
                     for sref, rref in ((True, False), (False, True), (True, True)):
                         fid = tr(A, OPS + Tr, [("&" if rref else "") + R], m, self_ref=sref)
                         out.append(core.f_row(K, PROP, fid, call(byval, P(0), P(1))))
@@ -92,6 +95,7 @@ def obligations(ctx, tier):
                 out.append(core.f_row(K, PROP, tr(A, OPS + "Rem", [D], "rem"), field(call(inh(A, "div_rem_digit"), P(0), P(1)), 1)))
             # ---- Sum / Product
             out += fold_rows(K, A)
+            out += fold_value_rows(K, A)
     return out
 
 
@@ -141,4 +145,35 @@ def fold_rows(K, A):
                                                  K.spec_levels(call(tr(A, OPS + optrait, [T], op), P(1), P(2))), K.debug)
                         why = "fold step: " + why
             out.append(core.Ob(key, PROP, "F", K.config, fid, status, why, loc, dict(code_nf=nf.show_tree(tree)[:600])))
+    return out
+
+
+def fold_value_rows(K, A):
+    """Sum / Product on finite iterators (empty, one, two, three items): the left fold with the operator's own overflow
+    behaviour (panic with debug assertions, wrap without), through a finite iterator model of the std adaptors."""
+    from . import arith
+    T = T_(A)
+    out = []
+    d = dict(arith._values(A))
+    names = ["1", "2", "5", "MAX"] + (["n1", "MIN", "n2"] if is_signed(A) else ["0"])
+    seqs = [()] + [(a,) for a in names] + [(a, b) for a in names for b in names] + [("2", "5", "1"), ("MAX", "1", "1"), ("1", "MAX", "2")] \
+        + ([("n1", "n1", "n1"), ("MIN", "n1", "1"), ("MAX", "n1", "2")] if is_signed(A) else [("0", "MAX", "2")])
+    for trait, m, ident, cls, fn in (("core::iter::Sum", "sum", 0, "overflow(add)", lambda x, y: x + y),
+                                     ("core::iter::Product", "product", 1, "overflow(mul)", lambda x, y: x * y)):
+        def exp(W, env, ident=ident, cls=cls, fn=fn):
+            lo, hi = arith.rng(W, A)
+            acc = ident
+            for x in env[0][1]:
+                acc = fn(acc, x.v)
+                if not (lo <= acc <= hi):
+                    if K.debug:
+                        return ("panic", cls)
+                    acc = W.wrap(A, acc).v
+            return ("val", W.wrap(A, acc))
+        reps = []
+        for sq in seqs:
+            reps.append(("it_" + ("_".join(sq) if sq else "empty"),
+                         (lambda sq=sq: lambda W: {0: ("iter", tuple(W.wrap(A, d[n](W)) for n in sq))})(), exp))
+        for item in (T, "&" + T):
+            out += core.g_row(K, PROP, tr(A, trait, [item], m), reps)
     return out
